@@ -274,6 +274,29 @@ def search(ctx):
         u3 = run_impl(e.decrypt, bytes(ct))
         if u3[0] == "ok" and not spec_valid_frame(indep_cbc_decrypt(k, bytes(ct))):
             ctx.fail("damaged-frame-accepted", {"key": k, "ct": bytes(ct)}, repr(u3)[:200])
+    # one encryptor object reused for a sequence of wraps and unwraps (no state may carry over)
+    for _ in range(ctx.budget(40, 600)):
+        k = rkey(r)
+        e = r.choice([SoftwareCustKeyEncryptor(k), ConfigSecurityCodeEncryptor(bytes(r.randrange(256) for _ in range(8)))])
+        key_used = k if isinstance(e, SoftwareCustKeyEncryptor) else hashlib.sha256(e.config_security_code).digest()[:16]
+        history = []
+        for step in range(r.randrange(2, 6)):
+            p = bytes(r.randrange(256) for _ in range(r.choice([0, 1, 17, 26, 27, 100, 253])))
+            ctx.case(("reuse", key_used, step, p))
+            w = run_impl(e.encrypt, p)
+            history.append(len(p))
+            why = None
+            if w[0] != "ok":
+                why = "wrap raised " + w[1]
+            else:
+                why = spec_frame_ok(indep_cbc_decrypt(key_used, w[1]), p)
+                if not why and r.random() < 0.7:
+                    u = run_impl(e.decrypt, w[1])
+                    if u != ("ok", p):
+                        why = "unwrap with the same object: %r" % (u,)
+            if why:
+                ctx.fail("encryptor-reuse", {"key": key_used, "payload_lengths": history, "payload": p}, "call #%d on one encryptor object: %s" % (step + 1, why))
+                break
     # customer key slot
     for _ in range(ctx.budget(150, 3000)):
         k = rkey(r)
